@@ -163,3 +163,47 @@ class ReplayAcrossCalls(VerifyThreshold):
             r,m=run.check_sat(z3.BoolVal(True))
             if r==z3.sat: rec['sample']={'scenario':scn(m),'expect':'err'}
         return rec
+
+class GenuineSignature(Obligation):
+    """a signature that the scheme's own signer emits - of EVERY length that signer can emit - made by the authorized key over exactly
+    these bytes counts towards the threshold.  Key and signature values have their real lengths, so any gate on either that runs
+    before the cryptographic library is exercised from MIR."""
+    name='C04.genuine_signature_of_every_scheme_and_length'
+    hash_order='fixed'
+    # scheme -> (key type, public-key length, signature lengths a genuine signer produces)
+    SCHEMES=[('Ed25519','Ed25519',32,[64]),
+             ('EcdsaP256Sha256','Ecdsa',65,[68,69,70,71,72]),       # DER SEQUENCE{INTEGER r, INTEGER s}: 70..72 usually, shorter when r or s has leading zero octets
+             ('RsaSsaPssSha256','Rsa',270,[256]),('RsaSsaPssSha256','Rsa',526,[512]),
+             ('RsaSsaPssSha512','Rsa',270,[256]),('RsaSsaPssSha512','Rsa',526,[512])]
+    def __init__(self,seed=0,prop='C04',**kw):
+        self.seed=seed; self.name=prop+'.genuine_signature_of_every_scheme_and_length'
+        self.bounds={'schemes':'Ed25519 (64-byte signatures), ECDSA P-256 ASN.1 (68..72 bytes), RSA-PSS SHA-256/512 with 2048- and 4096-bit keys (256 / 512 bytes)','threshold':1,'authorized_keys':1,'signatures':1,'key_and_signature_bytes':'free (all but the first, which carries the ghost identity)',
+                     'outside':'ECDSA signatures shorter than 68 bytes (probability below 2^-23 per signature); RSA moduli other than 2048/4096 bits'}
+        self.witnesses=['accepted_'+x for x in ('Ed25519','EcdsaP256Sha256','RsaSsaPssSha256','RsaSsaPssSha512')]
+        self.seen=set()
+    def setup(self,eng,tier):
+        self.eng=eng; self.b=B(eng); self.oracle=SigOracle(eng)
+        eng.stub(r'MetadataWrapper::to_bytes$',lambda e,run,a,f: ok(u8vec(list(b'M'))),'MetadataWrapper::to_bytes [constant bytes]')
+    def entry(self,eng): return eng.find_method(None,'Metablock','verify')
+    def mk_args(self,run):
+        b=self.b
+        sch,typ,klen,slens=self.SCHEMES[run.pick(len(self.SCHEMES),'scheme')]
+        slen=slens[run.pick(len(slens),'siglen')] if len(slens)>1 else slens[0]
+        # every byte of the key and of the signature except the first (the ghost identity) is free: a gate on their CONTENT is a solver question
+        kb=[0]+[z3.BitVec('kb%d'%i,8) for i in range(1,klen)]; sb=[0]+[z3.BitVec('sb%d'%i,8) for i in range(1,slen)]
+        key=b.pubkey(pool_keyid(0),typ=typ,scheme=sch,value=kb)
+        run.ghost['sigs']={0:{'made_by':z3.BitVecVal(0,8),'intact':z3.BoolVal(True),'over_bytes':[0x4d],'scheme':z3.BitVecVal(self.eng.enums['SignatureScheme'].index(sch),8)}}
+        mb=b.metablock(b.wrap_link(b.link('step',command=['x'])),[b.signature(pool_keyid(0),value=sb)])
+        return [Ref(Cell(mb)),Int(32,False,1),VecO([Ref(Cell(key))])],{'scheme':sch,'klen':klen,'slen':slen}
+    def check(self,run,out,g):
+        rec={'outcome':'?','viol':None,'wit':[],'sample':None,'obl':1}
+        scn={'kind':'genuine_signature','scheme':g['scheme'],'key_bits':{270:2048,526:4096}.get(g['klen'],0),'sig_len':g['slen']}
+        if out[0]!='ret':
+            rec['outcome']='panic'; rec['viol']={'kind':'panic','known_key':None,'scenario':scn,'predicted':'panic','what':'Metablock::verify panics: '+str(out[1])[:200]}; return rec
+        o=deref(out[1]).vname; rec['outcome']=o
+        if o!='Ok':
+            rec['viol']={'kind':'genuine_signature_rejected','known_key':None,'scenario':scn,'predicted':'err:VerificationFailure','what':'a %d-byte %s signature made by the one authorized key over exactly these bytes does not count (threshold 1)'%(g['slen'],g['scheme'])}; return rec
+        n='accepted_'+g['scheme']
+        if n not in self.seen: self.seen.add(n); rec['wit'].append(n)
+        rec['sample']={'scenario':scn,'expect':'ok'}
+        return rec
